@@ -40,6 +40,13 @@ def step (st : Nat × DecSt) (ws : List String) : Option ((Nat × DecSt) × Stri
   | ["other", e, ch, perf] => do
     let w := wireOther (← e.toNat?) (← ch.toNat?) (← unhex perf)
     pure (st, String.intercalate " " (w.map hex))
+  | ["ssplit", b, whole, first, rest, n] => do
+    -- payload content is irrelevant to the cut: n zero bytes
+    let ps := sessionSplit (← b.toNat?) { whole := (← whole.toNat?), first := (← first.toNat?), rest := (← rest.toNat?) }
+      (List.replicate (← n.toNat?) 0)
+    let kind : SKind → String := fun k => match k with
+      | .whole => "whole" | .first => "first" | .cont => "cont" | .last => "last"
+    pure (st, String.intercalate " " (ps.map (fun kc => s!"{kind kc.1}:{kc.2.length}")))
   | ["dinit", m] => do
     pure ((← m.toNat?, decInit), "ok")
   | ["dfeed", chunk] => do
